@@ -855,7 +855,7 @@ func ruleR04c(c *Check, w *walkerInfo) {
 // R04d error channels under a join
 
 func ruleR04d(c *Check) {
-	c.Rule("R04d", "for every channel that goroutines joined by a WaitGroup send on: each send is non-blocking (select/default), or the channel is drained concurrently with the senders (the join happens in a separate goroutine), or its capacity is len(X) with exactly one goroutine per element of that same X and at most one send on any path of the goroutine", 5)
+	c.Rule("R04d", "for every channel that goroutines joined by a WaitGroup send on: each send is non-blocking (select/default), or the channel is drained concurrently with the senders (the join happens in a separate goroutine), or its capacity is len(X) with exactly one goroutine per element of that same X and at most one send on any path of the goroutine", 2)
 	type chanInfo struct {
 		mk    *ssa.MakeChan
 		sends []ssa.Instruction
